@@ -121,7 +121,7 @@ pub fn apply_fault(e: usize, t: &mut Tape, cs: &mut ConfStream) -> Option<Fault>
         17 => rdh_fault!("rdh:system_id", nff, ITS3, false, ["10"], "!=0x20", |r, t| { r.system_id = *t.pick(&[0x21u8, 0x1F, 0, 3]); }),
         // ------------------------------------------------------------------ RDH running (E11), stateful
         18 => rdh_fault!("running:pages_counter", |_l: usize, pi: usize, _p: &Packet| pi >= 2, RUN3, true, ["11"], "+1/+2", |r, t| { r.pages_counter = r.pages_counter.wrapping_add(1 + t.below(2) as u16); }),
-        19 => rdh_fault!("running:trigger_changed_in_hbf", |_l: usize, pi: usize, p: &Packet| pi >= 2 && p.rdh.pages_counter != 0, RUN3, true, ["11"], "bit flip", |r, t| { r.trigger_type ^= 1 << t.below(15); if r.trigger_type == 0 { r.trigger_type = 1; } }),
+        19 => rdh_fault!("running:trigger_changed_in_hbf", |_l: usize, pi: usize, p: &Packet| pi >= 2 && p.rdh.pages_counter != 0, RUN3, true, ["11"], "bit flip", |r, t| { let bit = t.below(15); let old = r.trigger_type; r.trigger_type = old ^ (1 << bit); if r.trigger_type == 0 { r.trigger_type = old | (1 << ((bit + 1) % 15)); } }),
         20 => {
             // same orbit after stop: whole HBF k+1 takes the orbit of HBF k (TDHs follow so that nothing else breaks)
             let mut cands = vec![];
@@ -516,6 +516,6 @@ pub fn build() -> Property {
             "RDH0 fields of the very first packet (documented pre-check), header-id change on a link's first packet and page-counter entries inside a link's first two packets are outside the domain".into(),
             "FEE-ID faults are not asserted in stave mode (a different FEE ID is a different stave there)".into(),
         ],
-        phases: vec![Phase { name: "cli_fault_catalogue", kind: PhaseKind::Gen { cases: (3200, 30000), tape_len: 48 + 64 + 2000 + 4 * 4000 + 14000, f: Box::new(case) }, threads: 16 }],
+        phases: vec![Phase { name: "cli_fault_catalogue", kind: PhaseKind::Gen { cases: (8000, 60000), tape_len: 48 + 64 + 2000 + 4 * 4000 + 14000, f: Box::new(case) }, threads: 16 }],
     }
 }
